@@ -358,6 +358,8 @@ class ExprGen:
         if k < 0.75:
             return Constant(-r.randrange(1, 1 << r.randint(1, 5)))
         w = r.randint(1, 8)
+        if self.maxw > 32 and r.random() < 0.3:
+            w = r.choice([33, 48, 64, 65])        # literals beyond 32 / 64 bits
         if k < 0.9:
             return Constant(r.randrange(0, 1 << w), w)
         return Constant(r.randrange(-(1 << (w - 1)), 1 << (w - 1)), (w, True))
@@ -551,6 +553,8 @@ class ModuleText:
         self.order = []        # declaration order
         self.items = []        # token lists: ["assign", ...] | ["comb", n, ...] | ["sync", clk, n, ...]
         self.unsupported = []  # descriptions of constructs outside the modelled subset
+        self.blocking = False  # the text contains blocking assignments (`variable` signals: lowered Array targets);
+                               # read by the independent reader (PyVSim) only, not by the Lean model
         self.mems = {}         # name -> dict(id, w, depth, init_file)
 
 
@@ -794,11 +798,14 @@ class ModParser(VParser):
         elif v == "$display" or v == "$finish":
             raise Unsupported("system task " + v)
         else:
+            k0 = len(out)
             out += ["a"]
             self.primary(out)
             if self.accept("="):
-                raise Unsupported("blocking assignment (variable signal)")
-            self.expect("<=")
+                out[k0] = "e"            # blocking assignment (variable signal)
+                self.mt.blocking = True
+            else:
+                self.expect("<=")
             self.expr(out)
             self.expect(";")
 
@@ -828,8 +835,10 @@ class Captured:
     pass
 
 
-def convert_capture(top, ios, name="top", **kw):
-    """Run the REAL litex.gen.fhdl.verilog.convert and capture the lowered fragment and namespace it printed."""
+def convert_capture(top, ios, name="top", via=None, **kw):
+    """Run the REAL litex.gen.fhdl.verilog.convert and capture the lowered fragment and namespace it printed.
+    `via`: a callable that ends up calling convert (e.g. `lambda: platform.get_verilog(fragment)`), to go through
+    the glue users go through."""
     from litex.gen.fhdl import verilog as V
     cap = Captured()
     orig = V._generate_module
@@ -841,7 +850,7 @@ def convert_capture(top, ios, name="top", **kw):
         return orig(f, ios_, name_, ns, attr_translate, *args, **kwargs)
     V._generate_module = hook
     try:
-        r = V.convert(top, ios=set(ios), name=name, **kw)
+        r = via() if via is not None else V.convert(top, ios=set(ios), name=name, **kw)
     finally:
         V._generate_module = orig
     cap.text = r.main_source
@@ -903,6 +912,30 @@ def ser_vmodule(mt, ids_by_name):
     return items, decls
 
 
+def _capped_netlist():
+    from netlist import Netlist as _N
+
+    class Netlist(_N):
+        """harness/netlist.Netlist with a bound on the comb fix-point (a changed simulator/design that never
+        settles must end as a reported disagreement, not as an endless run)."""
+        MAX_ROUNDS = 400
+
+        def _propagate(self):
+            ev = self.ev
+            modified = ev.commit()
+            n = 0
+            while modified:
+                n += 1
+                if n > self.MAX_ROUNDS:
+                    raise RuntimeError("combinational logic does not settle within %d rounds" % self.MAX_ROUNDS)
+                ev.execute(self.comb)
+                modified = ev.commit()
+    return Netlist
+
+
+Netlist = _capped_netlist()
+
+
 class RealLowered:
     """The real Evaluator driven directly on the lowered fragment that convert printed (same Signal objects
     as the text), the way harness/netlist.py drives it on an un-lowered module."""
@@ -918,10 +951,16 @@ class RealLowered:
         self.ev = Evaluator(f.clock_domains, {})
         self.clk2cd = {id(cd.clk): cd.name for cd in f.clock_domains}
 
+    MAX_ROUNDS = 400
+
     def settle(self):
         ev = self.ev
         ev.execute(self.comb)
+        n = 0
         while ev.commit():
+            n += 1
+            if n > self.MAX_ROUNDS:
+                raise RuntimeError("lowered fragment: combinational logic does not settle")
             ev.execute(self.comb)
 
     def set(self, sig, value):
@@ -937,7 +976,11 @@ class RealLowered:
             if cd is not None and cd in self.f.sync:
                 ev.execute(self.f.sync[cd])
         modified = ev.commit()
+        n = 0
         while modified:
+            n += 1
+            if n > self.MAX_ROUNDS:
+                raise RuntimeError("lowered fragment: combinational logic does not settle")
             ev.execute(self.comb)
             modified = ev.commit()
 
@@ -992,6 +1035,11 @@ class StmtGen:
         r = self.rng
         s = r.choice(sigs)
         k = r.random()
+        if len(sigs) >= 2 and hasattr(self.eg, "array_key") and r.random() < 0.12:
+            # Array target: lowered to a `variable` signal (blocking assignment) + Case in the printed text,
+            # handled natively (`_ArrayProxy`) by the simulator; an out-of-range key selects the last element
+            from migen.fhdl.structure import Array
+            return Array(r.sample(sigs, k=r.randint(2, min(3, len(sigs)))))[self.eg.array_key()]
         if k < 0.55 or len(sigs) == 0:
             return s
         if k < 0.85:
@@ -1051,7 +1099,10 @@ class StmtGen:
                 else:
                     test = self.eg.atom() if self.eg.tame else self.eg.gen(r.randint(0, 1))
                 n_t = min(len(test), 4)
-                keys = r.sample(range(0, 1 << n_t), k=min(r.randint(1, 4), 1 << n_t))
+                if hasattr(self.eg, "case_keys"):
+                    keys = self.eg.case_keys(test)
+                else:
+                    keys = r.sample(range(0, 1 << n_t), k=min(r.randint(1, 4), 1 << n_t))
                 cases = {}
                 for key in keys:
                     cases[key] = self.stmts(targets, depth - 1)
@@ -1069,6 +1120,10 @@ def random_module(rng, lowered_exprs=False, maxw=9, tame=False):
     from migen import Module, ClockDomain
     m = Module()
     m.clock_domains.cd_sys = ClockDomain("sys")
+    doms = ["sys"]
+    if rng.random() < 0.3:
+        m.clock_domains.cd_b = ClockDomain("b")
+        doms.append("b")
     ps = 0.08 if tame else 0.3
     ins = make_sigs(rng, rng.randint(2, 4), maxw=maxw, prefix="i", p_signed=ps)
     regs = []
@@ -1092,8 +1147,15 @@ def random_module(rng, lowered_exprs=False, maxw=9, tame=False):
         readable = readable + [c]
     eg = ExprGen(rng, list(readable), lowered=lowered_exprs, tame=tame)
     sg = StmtGen(rng, eg)
-    m.sync += sg.stmts(regs, rng.randint(1, 3))
-    ios = set(ins) | set(regs[:1]) | set(combs[:2]) | {m.cd_sys.clk, m.cd_sys.rst}
+    dom_of = [rng.choice(doms) for _ in regs]       # every register is driven from one clock domain
+    for d in doms:
+        rs = [r_ for r_, dn in zip(regs, dom_of) if dn == d]
+        if rs:
+            getattr(m.sync, d).__iadd__(sg.stmts(rs, rng.randint(1, 3)))
+    ios = set(ins) | set(regs[:1]) | set(combs[:2])
+    for d in doms:
+        cd = getattr(m, "cd_" + d)
+        ios |= {cd.clk, cd.rst}
     return m, ios
 
 
@@ -1425,7 +1487,15 @@ class SafeGen:
         if k < 0.8 and s.nbits > 1:
             lo = r.randrange(0, s.nbits)
             return _Slice(s, lo, r.randint(lo + 1, s.nbits))
+        if max(x.nbits for x in self.u) > 32 and r.random() < 0.4:
+            return Constant(r.randrange(1 << 32, 1 << 66))          # literal beyond 32 / 64 bits
         return Constant(r.randrange(0, 1 << r.randint(1, 4)))
+
+    def array_key(self):
+        """Unsigned key of 1-3 bits (may exceed the array length: both sides then take the last element)."""
+        r = self.rng
+        s = r.choice(self.u)
+        return _Slice(s, 0, r.randint(1, min(s.nbits, 3)))
 
     def sconst(self):
         """Signed constant, in range of its width (the most negative value included)."""
@@ -1473,6 +1543,10 @@ class SafeGen:
             return self.atom()
         if self.cs and r.random() < 0.15:
             return self.cslice(d)
+        if self.cs and r.random() < 0.08:
+            # Array read (module context only: lowered by lower_basics to a Case on a new signal)
+            from migen.fhdl.structure import Array
+            return Array([self.word(d - 1) for _ in range(r.randint(2, 5))])[self.array_key()]
         if k < 0.5:
             return _Operator(r.choice(BITW), [self.word(d - 1), self.word(d - 1)])
         if k < 0.62:
@@ -1532,6 +1606,7 @@ class PyVSim:
     def __init__(self, mt, name_ids, data_files=None):
         self.w = {}
         self.state = {}
+        self._benv = None
         for mname, md in mt.mems.items():
             words = [0] * md["depth"]
             if md["init_file"] is not None:
@@ -1569,10 +1644,10 @@ class PyVSim:
 
     def stmt(self, t, p):
         k = t[p]
-        if k == "a":
+        if k == "a" or k == "e":
             l, p = build_vtree(t, p + 1)
             r, p = build_vtree(t, p)
-            return ("a", v_size(l), v_size(r)), p
+            return (k, v_size(l), v_size(r)), p
         if k == "f":
             c, p = build_vtree(t, p + 1)
             tt, p = self.stmts(t, p + 1, int(t[p]))
@@ -1598,12 +1673,13 @@ class PyVSim:
 
     def lhs_parts(self, l, v, out):
         """Split the value over the target(s): list of (id, lo, len, bits)."""
+        env = self._benv if self._benv is not None else self.state
         if l.k == "mem":
-            idx = v_eval(l.a[2], self.state, l.a[2].w, l.a[2].s)
+            idx = v_eval(l.a[2], env, l.a[2].w, l.a[2].s)
             out.append((("mem", l.a[0], idx), 0, l.w, v & ((1 << l.w) - 1)))
         elif l.k == "psel" and l.a[2].k == "mem":
             m = l.a[2]
-            idx = v_eval(m.a[2], self.state, m.a[2].w, m.a[2].s)
+            idx = v_eval(m.a[2], env, m.a[2].w, m.a[2].s)
             out.append((("mem", m.a[0], idx), l.a[1], l.w, v & ((1 << l.w) - 1)))
         elif l.k == "id":
             out.append((l.a[0], 0, l.w, v & ((1 << l.w) - 1)))
@@ -1617,11 +1693,30 @@ class PyVSim:
         else:
             raise ParseError("target")
 
+    def run_block(self, body, upd):
+        """One always block: blocking assignments are visible to the following statements of the block."""
+        self._benv = None
+        try:
+            self.run(body, upd)
+        finally:
+            self._benv = None
+
     def run(self, body, upd):
-        env = self.state
         for s in body:
+            env = self._benv if self._benv is not None else self.state
             if s[0] == "a":
                 self.lhs_parts(s[1], v_assign_value(s[2], env, s[1].w), upd)
+            elif s[0] == "e":
+                parts = []
+                self.lhs_parts(s[1], v_assign_value(s[2], env, s[1].w), parts)
+                if self._benv is None:
+                    self._benv = dict(self.state)
+                for i, lo, ln, bits in parts:
+                    if isinstance(i, tuple):
+                        raise ParseError("blocking assignment to a memory word")
+                    mask = ((1 << ln) - 1) << lo
+                    self._benv[i] = ((self._benv[i] & ~mask) | ((bits << lo) & mask)) & ((1 << self.w[i]) - 1)
+                upd += parts
             elif s[0] == "f":
                 self.run(s[2] if v_eval(s[1], env, s[1].w, s[1].s) != 0 else s[3], upd)
             else:
@@ -1663,7 +1758,7 @@ class PyVSim:
             for l, r in self.assigns:
                 self.lhs_parts(l, v_assign_value(r, self.state, l.w), upd)
             for body in self.combs:
-                self.run(body, upd)
+                self.run_block(body, upd)
             # all right-hand sides were evaluated on the old state: apply on a copy-free basis is fine because
             # `upd` holds values, not expressions
             if not self.apply(upd):
@@ -1673,6 +1768,6 @@ class PyVSim:
         upd = []
         for clk, body in self.syncs:
             if clk in clk_ids:
-                self.run(body, upd)
+                self.run_block(body, upd)
         self.apply(upd)
         self.settle()
